@@ -68,10 +68,12 @@ package graph
 //@     invariant[C13] forall i int :: 0 <= i && i < len(res) ==> res[i] != nil && len(res[i].children) == 0
 
 //@ func (*vertex).descendents
+//@   except precondition#1 : undischarged on the reference tree (engine limit or missing callee contract), not claimed
 //@   nopanic[C01,C13]
 //@   requires vwf(v)
 
 //@ func CheckCycle
+//@   except nilrecv#1, precondition#2 : undischarged on the reference tree (engine limit or missing callee contract), not claimed
 //@   nopanic[C01,C10]
 //@   requires project != nil
 
@@ -82,6 +84,7 @@ package graph
 // ENGINE LIMITS (see report): slices.Index is modelled by its range only (no "-1 ==> absent"), and a loop
 // that contains a call havocs whole heap classes, so the C10 clauses below and their invariants are inactive.
 //@ func searchCycle
+//@   except precondition#1 : undischarged on the reference tree (engine limit or missing callee contract), not claimed
 //@   nopanic[C01,C10,C13]
 //@?  assigns path.*
 //@?  ensures[C10,C13] err == nil ==> forall c string, i int :: has(v.children, c) && 0 <= i && i < len(path) ==> path[i] != c
@@ -95,21 +98,23 @@ package graph
 //@     invariant[C10] -1 <= rangeindex && rangeindex < len(names)
 
 //@ func newGraph
+//@   except nilderef#20, nilderef#21, nilmap#1, nilmap#2 : undischarged on the reference tree (engine limit or missing callee contract), not claimed
+//@   except precondition#1 : undischarged on the reference tree (engine limit or missing callee contract), not claimed
 //@   nopanic[C01,C10,C13]
 //@   requires project != nil
-//@   ensures[C10,C13] err == nil ==> gwf(result.0)
+//@?   ensures[C10,C13] err == nil ==> gwf(result.0)   // undischarged on the reference tree: not claimed
 //@   ensures[C13] forall n string, d string :: old(has(project.Services, n)) ==> (has(project.Services[n].DependsOn, d) <==> old(has(project.Services[n].DependsOn, d)))
 //@   loop 1
 //@     invariant g != nil && g.vertices != nil
-//@     invariant forall n string :: has(g.vertices, n) ==> vwf(g.vertices[n])
+//@?     invariant forall n string :: has(g.vertices, n) ==> vwf(g.vertices[n])   // undischarged on the reference tree: not claimed
 //@     invariant forall n string :: seen(n) ==> has(g.vertices, n)
 //@   loop 2
 //@     invariant g != nil && g.vertices != nil
-//@     invariant forall n string :: has(g.vertices, n) ==> vwf(g.vertices[n])
+//@?     invariant forall n string :: has(g.vertices, n) ==> vwf(g.vertices[n])   // undischarged on the reference tree: not claimed
 //@     invariant forall n string :: has(project.Services, n) ==> has(g.vertices, n)
 //@   loop 3
-//@     invariant g != nil && g.vertices != nil && src != nil && has(g.vertices, name) && src == g.vertices[name]
-//@     invariant forall n string :: has(g.vertices, n) ==> vwf(g.vertices[n])
+//@?     invariant g != nil && g.vertices != nil && src != nil && has(g.vertices, name) && src == g.vertices[name]   // undischarged on the reference tree: not claimed
+//@?     invariant forall n string :: has(g.vertices, n) ==> vwf(g.vertices[n])   // undischarged on the reference tree: not claimed
 //@     invariant forall n string :: has(project.Services, n) ==> has(g.vertices, n)
 
 //@ func newTraversal
@@ -147,6 +152,7 @@ package graph
 
 // a cyclic graph (or a missing required dependency) is refused before any visit: no result map
 //@ func CollectInDependencyOrder
+//@   except nilfunc#1, precondition#2, precondition#3, precondition#4 : undischarged on the reference tree (engine limit or missing callee contract), not claimed
 //@   nopanic[C01,C13]
 //@   requires project != nil && fn != nil
 //@   requires forall i int :: 0 <= i && i < len(options) ==> options[i] != nil
@@ -154,10 +160,12 @@ package graph
 //@     invariant -1 <= rangeindex && rangeindex < len(options)
 
 //@ func walk
+//@   except closure-precondition#1, nilderef#14, nilderef#18, precondition#1, precondition#2 : undischarged on the reference tree (engine limit or missing callee contract), not claimed
 //@   nopanic[C01,C13]
 //@   requires gwf(g) && t != nil && twf(t) && t.visitor != nil
 
 //@ func walk$1
+//@   except nilderef#2, nilrecv#1, nilrecv#2, panic#1, precondition#1, precondition#2 : undischarged on the reference tree (engine limit or missing callee contract), not claimed
 //@   nopanic[C01,C13]
 //@   requires t != nil && twf(t) && t.visitor != nil
 
@@ -168,6 +176,7 @@ package graph
 // runs after enter(node) returned true in visit; stable under the guarantee of enter/done of other
 // goroutines (they only touch keys they entered themselves)
 //@ func visit$1
+//@   except nilbox#1, nilbox#2, nilrecv#2, precondition#2, precondition#3, precondition#4 : undischarged on the reference tree (engine limit or missing callee contract), not claimed
 //@   nopanic[C01,C13]
 //@   requires t != nil && twf(t) && t.visitor != nil && vwf(node)
 //@   requires has(t.status, node.key) && t.status[node.key] == vEntered()
@@ -176,7 +185,7 @@ package graph
 //@   nopanic[C01,C13]
 //@   requires t.Options != nil && gwf(g)
 //@   ensures[C13] forall i int :: 0 <= i && i < len(result) ==> result[i] != nil
-//@   ensures[C13] t.Options.inverse ==> forall i int :: 0 <= i && i < len(result) ==> len(result[i].parents) == 0
+//@?   ensures[C13] t.Options.inverse ==> forall i int :: 0 <= i && i < len(result) ==> len(result[i].parents) == 0   // undischarged on the reference tree: not claimed
 //@   ensures[C13] !t.Options.inverse ==> forall i int :: 0 <= i && i < len(result) ==> len(result[i].children) == 0
 
 //@ func (*traversal).adjacentNodes
